@@ -25,7 +25,7 @@ Deliver, in the directory {wt}/_mutation/ (create it):
   - demo.diff       : `git diff` adding only the demonstration (applicable on top of either tree)
   - demo_args.txt   : the arguments that select the demonstration after `cargo test -p saito-core --offline` (e.g. the test name)
   - meta.json       : {{"property": "{pid}", "summary": "...", "files_changed": [...], "needs_to_manifest": "...", "why_existing_tests_pass": "...", "commands_run": [...], "demo_result_with_change": "...", "demo_result_without_change": "..."}}
-Make sure patch.diff really applies to a clean checkout (`git stash; git apply --check _mutation/patch.diff`), then leave the worktree with your change applied.
+Make sure patch.diff really applies to a clean checkout (`git apply -R --check _mutation/patch.diff` on your changed tree, or `git apply --check` in a scratch copy; do NOT use `git stash`: the stash is shared between all worktrees of this repository and other people work in them), then leave the worktree with your change applied.
 
 Reply with a short summary: what you changed, what is needed for it to manifest, and the evidence (test results before/after, demo fails with / passes without).'''
 def main():
